@@ -195,8 +195,17 @@ class Enumerated(Type):
                 v: v for v in enum_values_as_dict(values).values()
             }
 
+    def format_names(self):
+        return format_or(sorted(list(self.data_to_value)))
+
     def encode(self, data, _separator, _indent):
-        return self.data_to_value[data]
+        try:
+            return self.data_to_value[data]
+        except KeyError:
+            raise EncodeError(
+                "Expected enumeration value {}, but got '{}'.".format(
+                    self.format_names(),
+                    data))
 
 
 class Sequence(MembersType):
